@@ -230,4 +230,17 @@ theorem C13_literal_partner_counterexample :
     f ((t.rmslice 2 3).rmslice 0 1).content = true ∧ balTarget t 0 = none := by
   decide
 
+/-- Why the property (and `C13_balanced_fixpoint`) says "if at least two atoms remain": with ONE atom left the pass
+returns before proposing anything (`num_chunks < 2`, inherited from the surrounding-pairs pass, where a lone
+atom has no neighbours), so a test that also accepts the empty file leaves the last line standing: lines `f(`,
+`x`, `)`, `y`, `x` with `--max=1` and a test that asks for matching parentheses and for `y` wherever there is an
+`x` end with `y` although deleting it is accepted.
+Replayed on the real code (`Lithium.main --strategy=minimize-balanced --max=1`): same result. -/
+theorem C13_one_atom_left_counterexample :
+    let t : Testcase := { before := [], parts := [[0x66, 0x28, 0x0A], [0x78, 0x0A], [0x29, 0x0A], [0x79, 0x0A], [0x78, 0x0A]],
+                          reducible := [true, true, true, true, true], after := [] }
+    let f : Bytes → Bool := fun c => c.count 0x28 == c.count 0x29 && (!c.contains 0x78 || c.contains 0x79)
+    (balanced { max := 1 } (fun _ c => f c) (fun _ => 0) t).best.parts = [[0x79, 0x0A]] ∧ f [] = true := by
+  decide
+
 end Strat
